@@ -131,7 +131,7 @@ func tokens() []token {
 		ts = append(ts, token{"char:u" + c, "u" + c, sD(c), "char"})
 	}
 	for _, s := range []string{"", "a", "7", "abc", "123", "-45", "300", "70000", "5000000000", "99999999999999999999", "1.5", "1e2", "true", "false", "😀", "中文", "a😀", "NaN", "+Inf", " 1", "1 ", "0x10",
-		"550e8400-e29b-41d4-a716-446655440000", "1/3", "-7/2", "(1+2i)", "2022-02-27", "12345678901234567890123", "t", "T", "1", "0"} {
+		"550e8400-e29b-41d4-a716-446655440000", "1/3", "-7/2", "(1+2i)", "2022-02-27", "Mon Jan  2 15:04:05 MST 2006", "02 Jan 06 15:04 PST", "Monday, 02-Jan-06 15:04:05 CEST", "Mon, 02 Jan 2006 15:04:05 AEST", "2022-02-27 01:02:03+08:00", "2022-02-27T01:02:03.5Z", "12345678901234567890123", "t", "T", "1", "0"} {
 		ts = append(ts, strTok(s))
 	}
 	for _, s := range []string{"", "a", "abc", "123", "\xff\xfe", "\x00\x01\x02", "0123456789abcdef", "550e8400-e29b-41d4-a716-446655440000", "true", "中"} {
